@@ -261,9 +261,18 @@ func runCase(c Case, st *ev.Stats) error {
 		go func(p []gen.Step) {
 			defer wg.Done()
 			for round := 0; round < 3 && !stop.Load(); round++ {
-				for _, s := range p {
+				for si, s := range p {
 					if stop.Load() {
 						return
+					}
+					// every third canadd goes through the blocking ask/cant helpers (they wait on CheckDone)
+					if s.Op == "canadd" && si%3 == 0 {
+						amhelp.CantAdd(m, am.S(s.States), nil)
+						continue
+					}
+					if s.Op == "canadd" && si%3 == 1 {
+						amhelp.AskAdd(m, am.S(s.States), nil)
+						continue
 					}
 					rec.Apply(m, s)
 				}
@@ -345,6 +354,53 @@ func runCase(c Case, st *ev.Stats) error {
 			inFlight = true
 		} else {
 			safe(m.Dispose)
+		}
+	case "held":
+		// a handler of the holder is held; blocking check helpers queue up behind it; a graceful
+		// Dispose starts; the handler ends inside the disposal's grace window
+		entered, release := make(chan struct{}), make(chan struct{})
+		var once sync.Once
+		run.Runner.Hook = func(cl *rec.Call, e *am.Event) (bool, bool) {
+			once.Do(func() { close(entered); <-release })
+			return false, true
+		}
+		hdone := make(chan struct{})
+		go func() { defer close(hdone); rec.Apply(m, c.Holder) }()
+		select {
+		case <-entered:
+			inFlight = true
+			q0 := m.QueueLen()
+			helpers := []func(){
+				func() { amhelp.CantAdd(m, am.S{"Z"}, nil) },
+				func() { amhelp.AskAdd(m, am.S{"Z"}, nil) },
+				func() { amhelp.CantRemove(m, am.S{"Y"}, nil) },
+				func() { amhelp.AskRemove(m, am.S{"Y"}, nil) },
+				func() { m.CanAdd(am.S{"Z"}, nil) },
+				func() { m.Add1("Z", nil) },
+			}
+			n := 1 + c.At%len(helpers)
+			for i := 0; i < n; i++ {
+				fn := helpers[(c.At+i)%len(helpers)]
+				wg.Add(1)
+				go func() { defer wg.Done(); fn() }()
+			}
+			dl := time.Now().Add(3 * time.Second)
+			for m.QueueLen() < q0+1 && time.Now().Before(dl) {
+				time.Sleep(time.Millisecond)
+			}
+			safe(m.Dispose)
+			time.Sleep(time.Duration(10*(c.At%4)) * time.Millisecond)
+			close(release)
+		case <-hdone:
+			close(release)
+			safe(m.Dispose)
+		case <-time.After(10 * time.Second):
+			close(release)
+		}
+		select {
+		case <-hdone:
+		case <-time.After(15 * time.Second):
+			return fmt.Errorf("holder %s did not return after Dispose during its held handler", c.Holder)
 		}
 	case "eval":
 		ok, p := bounded(30*time.Second, func() {
@@ -585,7 +641,7 @@ func runCase(c Case, st *ev.Stats) error {
 
 var allSubs = []string{"when", "when+ctx", "whennot", "whennot+ctx", "whentime", "whentime+ctx", "whenticks", "whennext", "query", "query+ctx",
 	"args", "args+ctx", "queue", "statectx", "whenerr"}
-var triggers = []string{"idle", "force", "double", "gate", "gate", "handler", "handler", "eval", "during", "during", "parent", "parent", "helper"}
+var triggers = []string{"idle", "force", "double", "gate", "gate", "handler", "handler", "eval", "during", "during", "parent", "parent", "helper", "held", "held"}
 
 func genCase(t *rapid.T) Case {
 	sc := gen.GenSchema(t, gen.SchemaOpts{MaxStates: 5})
@@ -594,10 +650,10 @@ func genCase(t *rapid.T) Case {
 	combo := rapid.IntRange(0, 2*len(triggers)-1).Draw(t, "triggerCombo")
 	c.Trigger = triggers[combo%len(triggers)]
 	c.WithStart = combo >= len(triggers)
-	withTable := rapid.IntRange(0, 3).Draw(t, "withTable") != 0 || c.Trigger == "handler"
+	withTable := rapid.IntRange(0, 3).Draw(t, "withTable") != 0 || c.Trigger == "handler" || c.Trigger == "held"
 	if withTable {
 		c.Table = gen.GenTable(t, sc, gen.TableOpts{Veto: true, Nested: true, MaxBindings: 2})
-		if c.Trigger == "handler" {
+		if c.Trigger == "handler" || c.Trigger == "held" {
 			// make sure some handler of the holder runs
 			c.Table.Bindings[0].Handlers = append(c.Table.Bindings[0].Handlers, gen.HandlerSpec{Name: "AnyEnter"}, gen.HandlerSpec{Name: "AnyState"})
 		}
